@@ -37,24 +37,26 @@ type driver struct {
 	pools []sdk.AccAddress
 	distr sdk.AccAddress
 	tier  string
+	bond  string // the staking module's bond denomination
 }
 
 func e18(n int64) sdkmath.Int { return sdkmath.NewInt(n).Mul(sdkmath.NewInt(1000000000000000000)) }
 
-func newDriver(tier string) *driver {
+func newDriver(tier, bond string) *driver {
 	tax := sdk.NewDecWithPrec(2, 2)
-	w := world.New(world.Options{NumAccounts: 5, NumVals: 2, FastGov: true, SlashWindow: 10, UnbondingTime: 30 * time.Second, CommunityTax: &tax,
-		ExtraCoins: sdk.NewCoins(sdk.NewInt64Coin("atest", 1000000)),
+	w := world.New(world.Options{NumAccounts: 5, NumVals: 2, FastGov: true, SlashWindow: 10, UnbondingTime: 30 * time.Second, CommunityTax: &tax, BondDenom: bond,
+		ExtraCoins: sdk.NewCoins(sdk.NewCoin("atest", e18(1000000))),
 		Patch: func(a *app.Haqq, gs haqqtypes.GenesisState) haqqtypes.GenesisState {
 			var gg govv1.GenesisState
 			a.AppCodec().MustUnmarshalJSON(gs[govtypes.ModuleName], &gg)
 			gg.Params.BurnVoteQuorum = true
 			gg.Params.BurnProposalDepositPrevote = true
 			gg.Params.BurnVoteVeto = true
+			gg.Params.MinDeposit = sdk.NewCoins(sdk.NewCoin(world.Denom, e18(40)))
 			gs[govtypes.ModuleName] = a.AppCodec().MustMarshalJSON(&gg)
 			return gs
 		}})
-	d := &driver{w: w, tier: tier}
+	d := &driver{w: w, tier: tier, bond: bond}
 	for _, n := range []string{stakingtypes.BondedPoolName, stakingtypes.NotBondedPoolName, govtypes.ModuleName} {
 		d.pools = append(d.pools, authtypes.NewModuleAddress(n))
 	}
@@ -74,12 +76,13 @@ func newDriver(tier string) *driver {
 		}
 	}
 	A1 := w.Addrs[1]
-	must(stakingtypes.NewMsgDelegate(A1, w.ValAddr[0], sdk.NewCoin(world.Denom, e18(4))))
-	must(stakingtypes.NewMsgDelegate(A1, w.ValAddr[1], sdk.NewCoin(world.Denom, e18(4))))
+	// (amounts such that every slash and every burnt deposit exceeds 2^63 base units)
+	must(stakingtypes.NewMsgDelegate(A1, w.ValAddr[0], sdk.NewCoin(bond, e18(4000))))
+	must(stakingtypes.NewMsgDelegate(A1, w.ValAddr[1], sdk.NewCoin(bond, e18(4000))))
 	w.NextBlock(6 * time.Second)
 	ctx = w.Ctx()
-	must(stakingtypes.NewMsgUndelegate(A1, w.ValAddr[1], sdk.NewCoin(world.Denom, e18(1))))
-	must(stakingtypes.NewMsgBeginRedelegate(A1, w.ValAddr[1], w.ValAddr[0], sdk.NewCoin(world.Denom, e18(1))))
+	must(stakingtypes.NewMsgUndelegate(A1, w.ValAddr[1], sdk.NewCoin(bond, e18(1000))))
+	must(stakingtypes.NewMsgBeginRedelegate(A1, w.ValAddr[1], w.ValAddr[0], sdk.NewCoin(bond, e18(1000))))
 	w.NextBlock(6 * time.Second)
 	// the community pool holds a non-integer amount, as on any chain that has distributed fees: an odd
 	// amount of fees in two denominations is allocated (community tax 2%) before the exploration starts
@@ -126,7 +129,12 @@ func (d *driver) boundary(res *engine.Result, p []string, source string, absent 
 	b := d.snapshot()
 	res.Evaluations++
 	viol := func(breach, what string, detail map[string]any) {
-		res.AddViolation(engine.Violation{Signature: fmt.Sprintf("C14|source=%s|breach=%s", source, breach), What: what, Path: p, Detail: detail})
+		sig := fmt.Sprintf("C14|source=%s|breach=%s", source, breach)
+		if d.bond != world.Denom {
+			sig += "|bond=other"
+			p = append([]string{"fixture=bond-denom-" + d.bond}, p...)
+		}
+		res.AddViolation(engine.Violation{Signature: sig, What: what, Path: p, Detail: detail})
 	}
 	if !a.supply.IsEqual(b.supply) {
 		viol("supply", "total supply changed over a block in which only slashing / deposit burns can destroy coins", map[string]any{"before": a.supply.String(), "after": b.supply.String()})
@@ -154,7 +162,7 @@ func (d *driver) boundary(res *engine.Result, p []string, source string, absent 
 	poolDelta := b.pool.Sub(a.pool)
 	distrDelta := b.distr.Sub(a.distr...)
 	if !burned.IsZero() {
-		res.Nontrivial[fmt.Sprintf("%s|%s", source, burned)] = true
+		res.Nontrivial[fmt.Sprintf("%s|%s|%s", d.bond, source, burned)] = true
 		res.Outcomes["burn:"+source]++
 	}
 	wantPool := sdk.NewDecCoinsFromCoins(burned...)
@@ -184,7 +192,7 @@ func (d *driver) ops(w *world.World, depth int, path []string) []engine.Op {
 	for vi := 0; vi < 2; vi++ {
 		vi := vi
 		add(fmt.Sprintf("evidence(V%d)", vi+1), func(p []string, res *engine.Result) string {
-			ev := []abci.Misbehavior{{Type: abci.MisbehaviorType_DUPLICATE_VOTE, Validator: abci.Validator{Address: w.ValCons[vi], Power: 1},
+			ev := []abci.Misbehavior{{Type: abci.MisbehaviorType_DUPLICATE_VOTE, Validator: abci.Validator{Address: w.ValCons[vi], Power: 3001},
 				Height: 2, Time: world.GenesisTime.Add(12 * time.Second), TotalVotingPower: 2}}
 			d.boundary(res, p, "slash-doublesign", nil, ev)
 			return "ok"
@@ -205,12 +213,12 @@ func (d *driver) ops(w *world.World, depth int, path []string) []engine.Op {
 			return "ok"
 		})
 	}
-	msgOp("delegate(A1>V2)", func() sdk.Msg { return stakingtypes.NewMsgDelegate(A1, w.ValAddr[1], sdk.NewCoin(world.Denom, e18(1))) })
+	msgOp("delegate(A1>V2)", func() sdk.Msg { return stakingtypes.NewMsgDelegate(A1, w.ValAddr[1], sdk.NewCoin(d.bond, e18(500))) })
 	msgOp("undelegate(A1<V2)", func() sdk.Msg {
-		return stakingtypes.NewMsgUndelegate(A1, w.ValAddr[1], sdk.NewCoin(world.Denom, e18(1)))
+		return stakingtypes.NewMsgUndelegate(A1, w.ValAddr[1], sdk.NewCoin(d.bond, e18(500)))
 	})
 	msgOp("redelegate(A1:V1>V2)", func() sdk.Msg {
-		return stakingtypes.NewMsgBeginRedelegate(A1, w.ValAddr[0], w.ValAddr[1], sdk.NewCoin(world.Denom, e18(1)))
+		return stakingtypes.NewMsgBeginRedelegate(A1, w.ValAddr[0], w.ValAddr[1], sdk.NewCoin(d.bond, e18(500)))
 	})
 	// bank send restrictions concern user transfers only: they must not turn the redirect into a burn
 	add("sendDisabled(aISLM)", func(p []string, res *engine.Result) string {
@@ -253,10 +261,10 @@ func (d *driver) ops(w *world.World, depth int, path []string) []engine.Op {
 		})
 	}
 	veto := govv1.OptionNoWithVeto
-	two := sdk.NewCoins(sdk.NewInt64Coin(world.Denom, 1000), sdk.NewInt64Coin("atest", 5))
+	two := sdk.NewCoins(sdk.NewCoin(world.Denom, e18(40)), sdk.NewInt64Coin("atest", 5))
 	proposal("vetoedProposal", two, &veto, 3, "gov-veto")
 	proposal("noQuorumProposal", two, nil, 3, "gov-noquorum")
-	proposal("underfundedProposal", sdk.NewCoins(sdk.NewInt64Coin(world.Denom, 500), sdk.NewInt64Coin("atest", 5)), nil, 3, "gov-underfunded")
+	proposal("underfundedProposal", sdk.NewCoins(sdk.NewCoin(world.Denom, e18(20)), sdk.NewInt64Coin("atest", 5)), nil, 3, "gov-underfunded")
 	return out
 }
 
@@ -268,12 +276,26 @@ func bounds(tier string) int {
 }
 
 func Worker(shard, n int, tier string) *engine.Result {
-	d := newDriver(tier)
 	res := engine.NewResult(Prop)
-	e := &engine.Explorer{W: d.w, Res: res, Stores: []string{"staking", "distribution", "bank", "gov", "slashing"}, Ops: d.ops, MaxDepth: bounds(tier),
-		Shard: shard, NShards: n, Deadline: time.Now().Add(25 * time.Minute), NoDedup: true,
-		Extra: func(w *world.World) string { return fmt.Sprint(w.Header.Height) }}
-	e.Run()
+	// two chains: the usual one, and one whose staking bond denomination is not the native coin (the
+	// redirect is about what the staking pools and gov would burn, whatever it is denominated in)
+	for _, bond := range []string{world.Denom, "atest"} {
+		d := newDriver(tier, bond)
+		sub := engine.NewResult(Prop)
+		depth := bounds(tier)
+		if bond != world.Denom {
+			depth-- // the second chain one level less deep
+		}
+		e := &engine.Explorer{W: d.w, Res: sub, Stores: []string{"staking", "distribution", "bank", "gov", "slashing"}, Ops: d.ops, MaxDepth: depth,
+			Shard: shard, NShards: n, Deadline: time.Now().Add(25 * time.Minute), NoDedup: true,
+			Extra: func(w *world.World) string { return fmt.Sprint(w.Header.Height) }}
+		e.Run()
+		for k, v := range sub.States {
+			res.States["bond="+bond+"|"+k] = v
+		}
+		sub.States = map[string]int{}
+		res.Merge(sub)
+	}
 	return res
 }
 
@@ -295,7 +317,7 @@ func Run(tier string) int {
 	}
 	return engine.Finish(res, engine.Meta{
 		Property: Prop, Tier: tier, Level: "model_checking", Start: start,
-		Rule:   "all sequences <= depth over 12 operations (bank send-enabled switched off for the native denomination / by default, double-sign evidence per validator with an early infraction height so that unbonding and redelegating stake is slashed too, 7-block downtime window, delegate / undelegate / redelegate, vetoed / no-quorum / under-funded proposal with a two-denomination deposit, plain block) from a fixture holding bonded, unbonding and redelegating stake; conservation oracle around every virtual block boundary; non-trivial = boundary at which coins were taken, distinct by (source, amount)",
+		Rule:   "all sequences <= depth over 12 operations (bank send-enabled switched off for the native denomination / by default, double-sign evidence per validator with an early infraction height so that unbonding and redelegating stake is slashed too, 7-block downtime window, delegate / undelegate / redelegate, vetoed / no-quorum / under-funded proposal with a two-denomination deposit, plain block) from a fixture holding bonded, unbonding and redelegating stake, with amounts such that every slash and burnt deposit exceeds 2^63 base units; the same on a second chain whose staking bond denomination is not the native coin (one level less deep); conservation oracle around every virtual block boundary; non-trivial = boundary at which coins were taken, distinct by (source, amount)",
 		Bounds: map[string]any{"depth": bounds(tier)},
 		Assumptions: []string{
 			"coinomics off, zero fees: the community pool has no other inflow",
